@@ -260,6 +260,29 @@ func (s *MemoryStore) EnqueueBatch(items []Envelope) (int, error) {
 		}
 	}
 
+	// Handle depth overflow with drop_oldest before the duplicate checks, in the
+	// order of the SQLite backend (evict, then insert). Evictions are undone if
+	// the batch is refused after all (all-or-nothing covers them too).
+	var dropped []*Envelope
+	if s.maxDepth > 0 {
+		for activeCount+needed > s.maxDepth || (s.deliveredRetentionMaxAge > 0 && activeDeliveredCount+needed > s.maxDepth) {
+			victim := s.dropOldestQueuedLocked()
+			if victim == nil {
+				s.restoreDroppedLocked(dropped)
+				return 0, ErrQueueFull
+			}
+			dropped = append(dropped, victim)
+			activeCount = s.activeCountLocked()
+			activeDeliveredCount = s.activeDeliveredCountLocked()
+		}
+	}
+
+	if pressure := s.memoryPressureStatusLocked(); pressure.Active {
+		s.restoreDroppedLocked(dropped)
+		s.memoryPressureRejects++
+		return 0, ErrMemoryPressure
+	}
+
 	prepared := make([]*Envelope, 0, needed)
 	seenIDs := make(map[string]struct{}, needed)
 	for i := range items {
@@ -268,10 +291,12 @@ func (s *MemoryStore) EnqueueBatch(items []Envelope) (int, error) {
 			env.ID = newHexID("evt_")
 		}
 		if _, dup := seenIDs[env.ID]; dup {
+			s.restoreDroppedLocked(dropped)
 			return 0, ErrEnvelopeExists
 		}
 		seenIDs[env.ID] = struct{}{}
 		if _, exists := s.items[env.ID]; exists {
+			s.restoreDroppedLocked(dropped)
 			return 0, ErrEnvelopeExists
 		}
 		if env.State == "" {
@@ -297,28 +322,6 @@ func (s *MemoryStore) EnqueueBatch(items []Envelope) (int, error) {
 		}
 		cpy := env
 		prepared = append(prepared, &cpy)
-	}
-
-	// Handle depth overflow with drop_oldest. Evictions are undone if the batch
-	// is refused after all (all-or-nothing also covers the evicted messages).
-	var dropped []*Envelope
-	if s.maxDepth > 0 {
-		for activeCount+len(prepared) > s.maxDepth || (s.deliveredRetentionMaxAge > 0 && activeDeliveredCount+len(prepared) > s.maxDepth) {
-			victim := s.dropOldestQueuedLocked()
-			if victim == nil {
-				s.restoreDroppedLocked(dropped)
-				return 0, ErrQueueFull
-			}
-			dropped = append(dropped, victim)
-			activeCount = s.activeCountLocked()
-			activeDeliveredCount = s.activeDeliveredCountLocked()
-		}
-	}
-
-	if pressure := s.memoryPressureStatusLocked(); pressure.Active {
-		s.restoreDroppedLocked(dropped)
-		s.memoryPressureRejects++
-		return 0, ErrMemoryPressure
 	}
 
 	// Commit all items.
